@@ -8,7 +8,7 @@ Local Open Scope nat_scope.
 
 (* ================================================================== layer 1: journals and jit *)
 Definition id_lt (a b : chunk) : Prop := (c_id a < c_id b)%N.
-Definition sorted (j : journal) : Prop := StronglySorted id_lt j.
+Definition sorted (j : journal) : Prop := wf_journal j.
 
 Lemma sorted_tail c j : sorted (c :: j) -> sorted j.
 Proof. intros H. inversion H. assumption. Qed.
@@ -545,4 +545,877 @@ Proof.
   pose proof (jit_get_spos j _ _ _ Hs Hw Hsp Eg) as Hs1.
   destruct (j_ci it1) as [p|] eqn:Eci; [|assumption].
   apply spos_of_open; [assumption|assumption|cbn; congruence].
+Qed.
+
+(* ================================================================== layer 2: LogEventIterator *)
+Lemma jit0_ok j : wfj j jit0 /\ spos j (jit_pos jit0) /\ fl j jit0 = 0.
+Proof.
+  split; [split; [reflexivity|exact I]|]. split.
+  - split.
+    + intros c Hc. cbn. lia.
+    + destruct (last_chunk j); cbn; [lia|reflexivity].
+  - unfold fl, flat. cbn. assert (before j 0 = 0) as ->.
+    { destruct j as [|x j]; cbn; [reflexivity|]. destruct (N.ltb_spec (c_id x) 0); [lia|reflexivity]. }
+    destruct (find_chunk j 0); reflexivity.
+Qed.
+
+Section Cur.
+  Variable clear : bool.
+  Variable filtered : bool.
+  Variable flt : oev -> bool.
+  Variable choose : nat -> list (option oev) -> nat.
+
+  Definition fcoh (j : journal) (l : lei) (n : nat) : Prop :=
+    clear = true \/ l_flds l = [] \/ exists e, nth_error (recs j) n = Some e /\ l_flds l = e_flds e.
+
+  Definition lei_ok (j : journal) (l : lei) (n : nat) : Prop :=
+    wfj j (l_it l) /\ spos j (jit_pos (l_it l)) /\ fl j (l_it l) = n /\ fcoh j l n.
+
+  Lemma lei_get_spec j i l n l' r : sorted j -> lei_ok j l n -> lei_get clear j i l = (l', r) ->
+    lei_ok j l' n /\ r = option_map (obs i) (nth_error (recs j) n).
+  Proof.
+    intros Hs [Hw [Hsp [Hfl Hc]]] Hg. unfold lei_get in Hg. destruct (jit_get j (l_it l)) as [it' r0] eqn:Eg.
+    destruct (jit_get_spec j _ _ _ Hs Hw Eg) as [Hw' [Hfl' [Hr _]]].
+    pose proof (jit_get_spos j _ _ _ Hs Hw Hsp Eg) as Hsp'. rewrite Hfl in Hr.
+    destruct r0 as [e|]; injection Hg as <- <-.
+    - assert (unmarshal_flds clear (l_flds l) e = e_flds e) as Hu.
+      { unfold unmarshal_flds. destruct (e_flds e) eqn:Ef; [|reflexivity].
+        destruct Hc as [->|[->|[e' [He' Hl]]]]; [reflexivity|destruct clear; reflexivity|].
+        rewrite <- Hr in He'. injection He' as <-. rewrite Hl, Ef. destruct clear; reflexivity. }
+      rewrite Hu. split.
+      + split; [assumption|]. split; [assumption|]. split; [cbn; congruence|].
+        right. right. exists e. split; [congruence|reflexivity].
+      + rewrite <- Hr. reflexivity.
+    - split.
+      + split; [assumption|]. split; [assumption|]. split; [cbn; congruence|].
+        destruct Hc as [Hc|[Hc|[e' [He' _]]]]; [left; assumption|right; left; assumption|congruence].
+      + rewrite <- Hr. reflexivity.
+  Qed.
+
+  Lemma lei_next_spec j l n : sorted j -> lei_ok j l n ->
+    lei_ok j (lei_next j l) (if n <? length (recs j) then S n else n).
+  Proof.
+    intros Hs [Hw [Hsp [Hfl Hc]]]. destruct (jit_next_spec j _ Hs Hw) as [Hw' Hfl'].
+    split; [assumption|]. split; [apply jit_next_spos; assumption|]. split; [cbn; rewrite Hfl', Hfl; reflexivity|].
+    right. left. reflexivity.
+  Qed.
+
+  Lemma lei_ok_le j l n : sorted j -> lei_ok j l n -> n <= length (recs j).
+  Proof. intros Hs [_ [_ [Hfl _]]]. subst n. apply flat_le. assumption. Qed.
+
+  Lemma lei_ok_append j cid evs l n : sorted j -> lei_ok j l n -> lei_ok (jappend j cid evs) l n.
+  Proof.
+    intros Hs [Hw [Hsp [Hfl Hc]]]. destruct (spos_append j cid evs _ Hs Hsp) as [Hsp' Hfl'].
+    split; [apply wfj_append; assumption|]. split; [assumption|]. split; [unfold fl in *; congruence|].
+    destruct Hc as [Hc|[Hc|[e [He Hl]]]]; [left; assumption|right; left; assumption|].
+    right. right. exists e. split; [|assumption].
+    destruct (jappend_recs j cid evs) as [more ->]. rewrite nth_error_app1; [assumption|].
+    apply nth_error_Some. congruence.
+  Qed.
+
+  Lemma lei_new j pos : spos j pos -> lei_ok j (mkLei (jit_set_pos j jit0 pos) []) (flat j pos).
+  Proof.
+    intros Hsp. destruct (jit0_ok j) as [Hw0 _].
+    destruct (jit_set_pos_spec j jit0 pos Hw0 (proj1 Hsp)) as [Hw Hp].
+    split; [assumption|]. split; [cbn; rewrite Hp; assumption|]. split; [unfold fl; cbn; rewrite Hp; reflexivity|].
+    right. left. reflexivity.
+  Qed.
+
+  Lemma lei_fresh j : lei_ok j (mkLei jit0 []) 0.
+  Proof.
+    destruct (jit0_ok j) as [A [B C]]. split; [assumption|]. split; [assumption|]. split; [assumption|]. right. left. reflexivity.
+  Qed.
+
+  (* ================================================================ layer 3: the cursor *)
+  Inductive all3 : store -> list lei -> list nat -> Prop :=
+  | A3nil : all3 [] [] []
+  | A3cons p st l ls n ns : sorted (p_jrnl p) -> lei_ok (p_jrnl p) l n -> all3 st ls ns -> all3 (p :: st) (l :: ls) (n :: ns).
+
+  Lemma all3_len st ls ns : all3 st ls ns -> length ls = length st /\ length ns = length st.
+  Proof. induction 1; cbn; [split; reflexivity|]. destruct IHall3. split; congruence. Qed.
+
+  (* what Get on each source returns, as a function of the consumed counts *)
+  Fixpoint heads_of (i : nat) (st : store) (ns : list nat) : list (option oev) :=
+    match st, ns with
+    | p :: st', n :: ns' => option_map (obs i) (nth_error (recs (p_jrnl p)) n) :: heads_of (S i) st' ns'
+    | _, _ => []
+    end.
+
+  Fixpoint bump (st : store) (k : nat) (ns : list nat) : list nat :=
+    match st, ns with
+    | p :: st', n :: ns' =>
+        match k with
+        | O => (if n <? length (recs (p_jrnl p)) then S n else n) :: ns'
+        | S k' => n :: bump st' k' ns'
+        end
+    | _, _ => ns
+    end.
+
+  Lemma poll_spec st : forall i ls ns ls' hs, all3 st ls ns -> poll clear st i ls = (ls', hs) ->
+    all3 st ls' ns /\ hs = heads_of i st ns.
+  Proof.
+    induction st as [|p st IH]; intros i ls ns ls' hs H Hp; inversion H as [|p' st' l ls0 n ns0 Hso Hok Hrest]; subst; cbn in Hp.
+    - injection Hp as <- <-. split; [constructor|reflexivity].
+    - destruct (lei_get clear (p_jrnl p) i l) as [l' r] eqn:Eg.
+      destruct (poll clear st (S i) ls0) as [ls'' rs] eqn:Ep. injection Hp as <- <-.
+      destruct (lei_get_spec _ _ _ _ _ _ Hso Hok Eg) as [Hl Hr].
+      destruct (IH _ _ _ _ _ Hrest Ep) as [Ha Hh]. split; [constructor; assumption|]. cbn. congruence.
+  Qed.
+
+  Lemma next_at_spec st : forall k ls ns, all3 st ls ns -> all3 st (next_at st k ls) (bump st k ns).
+  Proof.
+    induction st as [|p st IH]; intros k ls ns H; inversion H as [|p' st' l ls0 n ns0 Hso Hok Hrest]; subst; cbn; [constructor|].
+    destruct k; constructor; try assumption; [apply lei_next_spec; assumption|apply IH; assumption].
+  Qed.
+
+  Lemma heads_nth st : forall ns i k ev, nth_error (heads_of i st ns) k = Some (Some ev) ->
+    exists p n e, nth_error st k = Some p /\ nth_error ns k = Some n /\ nth_error (recs (p_jrnl p)) n = Some e /\ ev = obs (i + k) e.
+  Proof.
+    induction st as [|p st IH]; intros ns i k ev H; destruct ns as [|n ns]; cbn in H; try (destruct k; discriminate).
+    destruct k; cbn in H.
+    - destruct (nth_error (recs (p_jrnl p)) n) as [e|] eqn:E; [|discriminate]. cbn in H. injection H as <-.
+      exists p, n, e. rewrite Nat.add_0_r. repeat split; assumption.
+    - destruct (IH _ _ _ _ H) as [p' [n' [e [A [B [C D]]]]]]. exists p', n', e. cbn.
+      replace (i + S k) with (S i + k) by lia. repeat split; assumption.
+  Qed.
+
+  Definition head_at (st : store) (ns : list nat) (ev : oev) : Prop :=
+    nth_error (heads_of 0 st ns) (o_src ev) = Some (Some ev).
+
+  Definition at_end (st : store) (ns : list nat) : Prop := forall k ev, nth_error (heads_of 0 st ns) k <> Some (Some ev).
+
+  Record cur_ok (st : store) (c : cursor) (ns : list nat) : Prop := mkCurOk {
+    co_leis : all3 st (cu_leis c) ns;
+    co_bad : cu_bad c = false;
+    co_sel : forall ev, cu_sel c = Some ev -> 1 < length (cu_leis c) /\ head_at st ns ev;
+    co_fit : forall ev, cu_fit c = Some ev ->
+               filtered = true /\ flt ev = true /\ head_at st ns ev /\ (1 < length (cu_leis c) -> cu_sel c = Some ev)
+  }.
+
+  Definition same_hdr (c c' : cursor) : Prop := cu_id c' = cu_id c /\ cu_pos c' = cu_pos c /\ length (cu_leis c') = length (cu_leis c).
+
+  Lemma src_get_spec st c ns c' r : cur_ok st c ns -> src_get clear choose st c = (c', r) ->
+    cur_ok st c' ns /\ cu_fit c' = cu_fit c /\ same_hdr c c' /\
+    (forall ev, r = Some ev -> head_at st ns ev /\ (1 < length (cu_leis c) -> cu_sel c' = Some ev)).
+  Proof.
+    intros H Hg. unfold src_get in Hg.
+    assert (forall ls hs, poll clear st 0 (cu_leis c) = (ls, hs) ->
+      (let k := if 1 <? length (cu_leis c) then choose (cu_tick c) hs else 0 in
+       let r := match nth_error hs k with Some (Some ev) => Some ev | _ => None end in
+       let sel := if 1 <? length (cu_leis c) then r else None in
+       (mkCur (cu_id c) (cu_pos c) ls sel (cu_fit c) (S (cu_tick c)) (cu_bad c), r)) = (c', r) ->
+      (cu_sel c = None \/ (1 <? length (cu_leis c)) = false) ->
+      cur_ok st c' ns /\ cu_fit c' = cu_fit c /\ same_hdr c c' /\
+      (forall ev, r = Some ev -> head_at st ns ev /\ (1 < length (cu_leis c) -> cu_sel c' = Some ev))) as Hpoll.
+    { intros ls hs Ep Heq Hcase. destruct (poll_spec _ _ _ _ _ _ (co_leis _ _ _ H) Ep) as [Ha Hh].
+      destruct (all3_len _ _ _ Ha) as [Hl1 _]. destruct (all3_len _ _ _ (co_leis _ _ _ H)) as [Hl2 _].
+      cbn zeta in Heq. injection Heq as <- Hr.
+      assert (forall ev, r = Some ev -> head_at st ns ev) as Hhead.
+      { intros ev Hev. subst r hs.
+        destruct (nth_error (heads_of 0 st ns) (if 1 <? length (cu_leis c) then choose (cu_tick c) (heads_of 0 st ns) else 0)) as [[ev'|]|] eqn:En; try discriminate.
+        injection Hev as ->. destruct (heads_nth _ _ _ _ _ En) as [p [n [e [_ [_ [_ Hobs]]]]]].
+        unfold head_at. rewrite Hobs at 1. cbn [obs o_src]. exact En. }
+      split; [|split; [reflexivity|split; [split; [reflexivity|split; [reflexivity|cbn; congruence]]|]]].
+      - constructor; cbn [cu_sel cu_fit cu_leis cu_bad cu_id cu_pos cu_tick].
+        + assumption.
+        + apply (co_bad _ _ _ H).
+        + intros ev. destruct (1 <? length (cu_leis c)) eqn:Em; intros Hev; [|discriminate].
+          split; [rewrite Hl1, <- Hl2; apply Nat.ltb_lt; assumption|]. apply Hhead. rewrite <- Hr. assumption.
+        + intros ev Hev. destruct (co_fit _ _ _ H ev Hev) as [A [B [C D]]]. split; [assumption|]. split; [assumption|]. split; [assumption|].
+          intros Hm. rewrite Hl1, <- Hl2 in Hm. specialize (D Hm).
+          destruct Hcase as [Hc|Hc]; [congruence|]. apply Nat.ltb_lt in Hm. congruence.
+      - intros ev Hev. split; [apply Hhead; assumption|]. intros Hm. cbn [cu_sel]. apply Nat.ltb_lt in Hm. rewrite <- Hr in Hev. rewrite Hm in Hev |- *. exact Hev. }
+    destruct (cu_sel c) as [ev0|] eqn:Es.
+    - destruct (1 <? length (cu_leis c)) eqn:Em.
+      + injection Hg as <- <-. split; [assumption|]. split; [reflexivity|]. split; [repeat split|].
+        intros ev Hev. injection Hev as <-. split; [apply (co_sel _ _ _ H); assumption|]. intros _. assumption.
+      + destruct (poll clear st 0 (cu_leis c)) as [ls hs] eqn:Ep. apply (Hpoll ls hs eq_refl); [|right; reflexivity].
+        exact Hg.
+    - destruct (poll clear st 0 (cu_leis c)) as [ls hs] eqn:Ep. apply (Hpoll ls hs eq_refl); [|left; reflexivity].
+      destruct (1 <? length (cu_leis c)); exact Hg.
+  Qed.
+
+  (* ---------------------------------------------------------------- ghost accounting *)
+  Definition eflt (ev : oev) : bool := eff_flt filtered flt ev.
+
+  (* D: everything delivered so far; ns: records consumed per partition *)
+  Definition acc (D : list oev) (st : store) (ns : list nat) : Prop :=
+    forall p, events_of p D = filter eflt (map (obs p) (firstn (nth p ns 0) (part_events st p))).
+
+  Lemma firstn_S_nth {A} (l : list A) : forall n e, nth_error l n = Some e -> firstn (S n) l = firstn n l ++ [e].
+  Proof.
+    induction l as [|x l IH]; intros n e H; destruct n; cbn in *; try discriminate.
+    - injection H as <-. reflexivity.
+    - f_equal. apply IH. assumption.
+  Qed.
+
+  Lemma bump_nth st : forall k ns q,
+    nth q (bump st k ns) 0 =
+    if q =? k then match nth_error st k, nth_error ns k with
+                   | Some p, Some n => if n <? length (recs (p_jrnl p)) then S n else n
+                   | _, _ => nth q ns 0
+                   end
+    else nth q ns 0.
+  Proof.
+    induction st as [|p st IH]; intros k ns q.
+    - cbn. destruct (q =? k); [destruct k; reflexivity|reflexivity].
+    - destruct ns as [|n ns].
+      + cbn. destruct (q =? k); [destruct k; cbn; [reflexivity|destruct (nth_error st k); reflexivity]|reflexivity].
+      + destruct k, q; cbn [bump nth nth_error Nat.eqb]; try reflexivity. apply IH.
+  Qed.
+
+  Lemma events_of_app p a b : events_of p (a ++ b) = events_of p a ++ events_of p b.
+  Proof. unfold events_of. apply filter_app. Qed.
+
+  Lemma acc_step D st ns k ev : acc D st ns -> nth_error (heads_of 0 st ns) k = Some (Some ev) ->
+    (eflt ev = false -> acc D st (bump st k ns)) /\ (eflt ev = true -> acc (D ++ [ev]) st (bump st k ns)).
+  Proof.
+    intros Ha Hh. destruct (heads_nth _ _ _ _ _ Hh) as [pt [n [e [Hst [Hns [He Hev]]]]]]. cbn in Hev.
+    assert (n < length (recs (p_jrnl pt))) as Hlt by (apply nth_error_Some; congruence).
+    assert (forall q, q <> k -> nth q (bump st k ns) 0 = nth q ns 0) as Hother.
+    { intros q Hq. rewrite bump_nth. destruct (Nat.eqb_spec q k); [congruence|reflexivity]. }
+    assert (nth k (bump st k ns) 0 = S n) as Hsame.
+    { rewrite bump_nth, Nat.eqb_refl, Hst, Hns. destruct (Nat.ltb_spec n (length (recs (p_jrnl pt)))); [reflexivity|lia]. }
+    assert (nth k ns 0 = n) as Hn by (apply nth_error_nth; assumption).
+    assert (part_events st k = recs (p_jrnl pt)) as Hpe by (unfold part_events; rewrite Hst; reflexivity).
+    assert (filter eflt (map (obs k) (firstn (S n) (part_events st k))) =
+            filter eflt (map (obs k) (firstn n (part_events st k))) ++ (if eflt ev then [ev] else [])) as Hf.
+    { rewrite Hpe, (firstn_S_nth _ _ _ He), map_app, filter_app. cbn. rewrite <- Hev. reflexivity. }
+    split; intros Hfl p.
+    - destruct (Nat.eq_dec p k) as [->|Hne].
+      + rewrite Hsame, Hf, Hfl, app_nil_r, <- Hn. apply Ha.
+      + rewrite (Hother p Hne). apply Ha.
+    - rewrite events_of_app. destruct (Nat.eq_dec p k) as [->|Hne].
+      + rewrite Hsame, Hf, Hfl, <- Hn, <- Ha. f_equal. unfold events_of. cbn. rewrite Hev. cbn. rewrite Nat.eqb_refl. reflexivity.
+      + rewrite (Hother p Hne), <- Ha. unfold events_of at 2. cbn. rewrite Hev. cbn.
+        destruct (Nat.eqb_spec k p); [congruence|]. apply app_nil_r.
+  Qed.
+
+  Lemma heads_len st : forall i ls ns, all3 st ls ns -> length (heads_of i st ns) = length st.
+  Proof. intros i ls ns H. revert i. induction H; intros i; cbn; [reflexivity|]. f_equal. apply IHall3. Qed.
+
+  Lemma set_fit_id c : cu_fit c = None -> set_fit c None = c.
+  Proof. destruct c; cbn. intros ->. reflexivity. Qed.
+
+  Lemma src_get_head st c ns ev : cur_ok st c ns -> head_at st ns ev -> (1 < length (cu_leis c) -> cu_sel c = Some ev) ->
+    exists c1, src_get clear choose st c = (c1, Some ev).
+  Proof.
+    intros H Hh Hm. unfold src_get. destruct (Nat.ltb_spec 1 (length (cu_leis c))) as [L|L].
+    - rewrite (Hm L). eexists. reflexivity.
+    - destruct (poll clear st 0 (cu_leis c)) as [ls hs] eqn:Ep.
+      destruct (poll_spec _ _ _ _ _ _ (co_leis _ _ _ H) Ep) as [Ha ->].
+      destruct (all3_len _ _ _ (co_leis _ _ _ H)) as [Hl _].
+      unfold head_at in Hh. assert (o_src ev < length (heads_of 0 st ns)) as Hlt by (apply nth_error_Some; congruence).
+      rewrite (heads_len _ _ _ _ Ha) in Hlt. assert (o_src ev = 0) as E0 by lia. rewrite E0 in Hh.
+      destruct (cu_sel c); rewrite Hh; eexists; reflexivity.
+  Qed.
+
+  Lemma src_get_none st c ns c1 : cur_ok st c ns -> choose_valid choose -> src_get clear choose st c = (c1, None) -> at_end st ns.
+  Proof.
+    intros H Hv Hg k' ev' Hk'. unfold src_get in Hg.
+    destruct (poll clear st 0 (cu_leis c)) as [ls hs] eqn:Ep.
+    destruct (poll_spec _ _ _ _ _ _ (co_leis _ _ _ H) Ep) as [Ha ->].
+    destruct (all3_len _ _ _ (co_leis _ _ _ H)) as [Hl _].
+    destruct (Nat.ltb_spec 1 (length (cu_leis c))) as [L|L].
+    - destruct (cu_sel c) as [e0|]; [discriminate|].
+      destruct (Hv (cu_tick c) _ _ _ Hk') as [ev'' Hc]. rewrite Hc in Hg. discriminate.
+    - assert (k' < length (heads_of 0 st ns)) as Hlt by (apply nth_error_Some; congruence).
+      rewrite (heads_len _ _ _ _ Ha) in Hlt. assert (k' = 0) as -> by lia.
+      destruct (cu_sel c); rewrite Hk' in Hg; discriminate.
+  Qed.
+
+  Lemma src_next_spec st c ns c1 r : cur_ok st c ns -> src_get clear choose st c = (c1, r) ->
+    let c2 := set_fit (src_next clear choose st c) None in
+    cur_ok st c2 (match r with Some ev => bump st (o_src ev) ns | None => ns end) /\ same_hdr c c2 /\ cu_sel c2 = None /\ cu_fit c2 = None.
+  Proof.
+    intros H Hg. destruct (src_get_spec _ _ _ _ _ H Hg) as [H1 [_ [[Hid [Hpos Hlen]] _]]].
+    unfold src_next. rewrite Hg. destruct r as [ev|]; cbn.
+    - split; [|split; [split; [assumption|split; [assumption|]]|split; reflexivity]].
+      + constructor; cbn; [apply next_at_spec; apply (co_leis _ _ _ H1)|apply (co_bad _ _ _ H1)|discriminate|discriminate].
+      + cbn. pose proof (next_at_spec st (o_src ev) _ _ (co_leis _ _ _ H1)) as Hn.
+        destruct (all3_len _ _ _ Hn) as [A _]. destruct (all3_len _ _ _ (co_leis _ _ _ H)) as [B _]. congruence.
+    - split; [|split; [split; [assumption|split; [assumption|assumption]]|split; reflexivity]].
+      constructor; cbn; [apply (co_leis _ _ _ H1)|apply (co_bad _ _ _ H1)|discriminate|discriminate].
+  Qed.
+
+  (* records not yet consumed: the measure of the skip loop *)
+  Fixpoint rem (st : store) (ns : list nat) : nat :=
+    match st, ns with
+    | p :: st', n :: ns' => (length (recs (p_jrnl p)) - n) + rem st' ns'
+    | _, _ => 0
+    end.
+
+  Lemma rem_le_total st : forall ns, rem st ns <= total_events st.
+  Proof.
+    unfold total_events. induction st as [|p st IH]; intros [|n ns]; cbn [rem fold_right]; try lia. specialize (IH ns). lia.
+  Qed.
+
+  Lemma rem_bump st : forall i k ns ev, nth_error (heads_of i st ns) k = Some (Some ev) -> rem st (bump st k ns) < rem st ns.
+  Proof.
+    induction st as [|p st IH]; intros i k [|n ns] ev H; cbn [heads_of] in H; try (destruct k; discriminate).
+    destruct k; cbn [nth_error] in H; cbn [rem bump].
+    - destruct (nth_error (recs (p_jrnl p)) n) as [e|] eqn:E; [|discriminate].
+      assert (n < length (recs (p_jrnl p))) as Hlt by (apply nth_error_Some; congruence).
+      destruct (Nat.ltb_spec n (length (recs (p_jrnl p)))); lia.
+    - specialize (IH _ _ _ _ H). lia.
+  Qed.
+
+  Lemma fit_loop_spec st D : forall fuel c ns c' r, cur_ok st c ns -> cu_fit c = None -> filtered = true -> rem st ns < fuel ->
+    acc D st ns -> fit_loop clear flt choose fuel st c = (c', r) ->
+    exists ns', cur_ok st c' ns' /\ acc D st ns' /\ same_hdr c c' /\ (at_end st ns -> ns' = ns) /\
+      match r with
+      | Some ev => head_at st ns' ev /\ flt ev = true /\ (1 < length (cu_leis c') -> cu_sel c' = Some ev)
+      | None => choose_valid choose -> at_end st ns'
+      end.
+  Proof.
+    induction fuel as [|f IH]; intros c ns c' r H Hfit Hfil Hrem Ha Hl; [lia|].
+    cbn [fit_loop] in Hl. destruct (src_get clear choose st c) as [c1 r1] eqn:Eg.
+    destruct (src_get_spec _ _ _ _ _ H Eg) as [H1 [Hf1 [Hh1 Hr1]]].
+    destruct r1 as [ev|].
+    - destruct (Hr1 ev eq_refl) as [Hhead Hsel]. destruct (flt ev) eqn:Efl.
+      + injection Hl as <- <-. exists ns. split; [|split; [assumption|split; [|split; [reflexivity|]]]].
+        * constructor; cbn; [apply (co_leis _ _ _ H1)|apply (co_bad _ _ _ H1)|apply (co_sel _ _ _ H1)|].
+          intros ev' Hev'. injection Hev' as <-. split; [assumption|]. split; [assumption|]. split; [assumption|].
+          destruct Hh1 as [_ [_ Hlen]]. rewrite Hlen. assumption.
+        * destruct Hh1 as [A [B C]]. repeat split; cbn; assumption.
+        * split; [assumption|]. split; [assumption|]. cbn. destruct Hh1 as [_ [_ Hlen]]. rewrite Hlen. assumption.
+      + (* skipped: Next on the selected source, loop *)
+        assert (1 < length (cu_leis c1) -> cu_sel c1 = Some ev) as Hsel1 by (destruct Hh1 as [_ [_ Hlen]]; rewrite Hlen; assumption).
+        destruct (src_get_head _ _ _ _ H1 Hhead Hsel1) as [c1' Eg1].
+        destruct (src_next_spec _ _ _ _ _ H1 Eg1) as [H2 [Hh2 [Hs2 Hf2]]]. cbn zeta in *.
+        assert (cu_fit (src_next clear choose st c1) = None) as Hfn.
+        { unfold src_next. rewrite Eg1. cbn. destruct (src_get_spec _ _ _ _ _ H1 Eg1) as [_ [Hf' _]]. congruence. }
+        rewrite (set_fit_id _ Hfn) in *.
+        destruct (acc_step D st ns (o_src ev) ev Ha Hhead) as [Hskip _].
+        assert (eflt ev = false) as He by (unfold eflt, eff_flt; rewrite Hfil; assumption).
+        pose proof (rem_bump _ _ _ _ _ Hhead) as Hrb.
+        assert (rem st (bump st (o_src ev) ns) < f) as Hrf by lia.
+        destruct (IH _ _ _ _ H2 Hfn Hfil Hrf (Hskip He) Hl) as [ns' [A [B [C [_ E]]]]].
+        exists ns'. split; [assumption|]. split; [assumption|]. split; [|split; [|assumption]].
+        * destruct Hh1 as [I1 [P1 L1]]. destruct Hh2 as [I2 [P2 L2]]. destruct C as [I3 [P3 L3]]. repeat split; congruence.
+        * intros He'. exfalso. exact (He' _ _ Hhead).
+    - injection Hl as <- <-. exists ns. split; [assumption|]. split; [assumption|]. split; [assumption|]. split; [reflexivity|].
+      intros Hv. exact (src_get_none _ _ _ _ H Hv Eg).
+  Qed.
+
+  Lemma cur_get_spec st D c ns c' r : cur_ok st c ns -> acc D st ns -> cur_get clear filtered flt choose st c = (c', r) ->
+    exists ns', cur_ok st c' ns' /\ acc D st ns' /\ same_hdr c c' /\ (at_end st ns -> ns' = ns) /\
+      match r with
+      | Some ev => head_at st ns' ev /\ eflt ev = true /\ (1 < length (cu_leis c') -> cu_sel c' = Some ev)
+      | None => choose_valid choose -> at_end st ns'
+      end.
+  Proof.
+    intros H Ha Hg. unfold cur_get in Hg. destruct filtered eqn:Efil.
+    - destruct (cu_fit c) as [ev|] eqn:Ef.
+      + injection Hg as <- <-. exists ns. destruct (co_fit _ _ _ H ev Ef) as [_ [B [C E]]].
+        split; [assumption|]. split; [assumption|]. split; [repeat split|]. split; [reflexivity|]. split; [assumption|]. split; [|assumption].
+        unfold eflt, eff_flt. rewrite Efil. assumption.
+      + assert (rem st ns < S (total_events st)) as Hr by (pose proof (rem_le_total st ns); lia).
+        destruct (fit_loop_spec st D _ _ _ _ _ H Ef Efil Hr Ha Hg) as [ns' [A [B [C [C2 E]]]]].
+        exists ns'. split; [assumption|]. split; [assumption|]. split; [assumption|]. split; [assumption|].
+        destruct r as [ev|]; [|assumption]. destruct E as [E1 [E2 E3]]. split; [assumption|]. split; [|assumption].
+        unfold eflt, eff_flt. rewrite Efil. assumption.
+    - destruct (src_get_spec _ _ _ _ _ H Hg) as [H1 [Hf1 [Hh1 Hr1]]]. exists ns.
+      split; [assumption|]. split; [assumption|]. split; [assumption|]. split; [reflexivity|].
+      destruct r as [ev|]; [|intros Hv; exact (src_get_none _ _ _ _ H Hv Hg)].
+      destruct (Hr1 ev eq_refl) as [A B]. split; [assumption|]. split; [unfold eflt, eff_flt; rewrite Efil; reflexivity|].
+      destruct Hh1 as [_ [_ Hlen]]. rewrite Hlen. assumption.
+  Qed.
+
+  Lemma cur_next_spec st c ns ev : cur_ok st c ns -> head_at st ns ev -> (1 < length (cu_leis c) -> cu_sel c = Some ev) ->
+    cur_ok st (cur_next clear filtered choose st c) (bump st (o_src ev) ns) /\ same_hdr c (cur_next clear filtered choose st c).
+  Proof.
+    intros H Hh Hs. destruct (src_get_head _ _ _ _ H Hh Hs) as [c1 Eg].
+    destruct (src_next_spec _ _ _ _ _ H Eg) as [H2 [Hh2 _]]. cbn zeta in *.
+    unfold cur_next. destruct filtered eqn:Efil; [split; assumption|].
+    assert (cu_fit (src_next clear choose st c) = None) as Hfn.
+    { unfold src_next. rewrite Eg. cbn. destruct (src_get_spec _ _ _ _ _ H Eg) as [_ [Hf' _]].
+      destruct (cu_fit c) as [e|] eqn:Ef; [|congruence]. destruct (co_fit _ _ _ H e Ef) as [A _]. congruence. }
+    rewrite (set_fit_id _ Hfn) in *. split; assumption.
+  Qed.
+
+  Lemma page_loop_spec st : forall lim D c ns c' evs, cur_ok st c ns -> acc D st ns ->
+    page_loop clear filtered flt choose lim st c = (c', evs) ->
+    exists ns', cur_ok st c' ns' /\ acc (D ++ evs) st ns' /\ same_hdr c c' /\ length evs <= lim /\
+                (length evs < lim -> choose_valid choose -> at_end st ns').
+  Proof.
+    induction lim as [|n IH]; intros D c ns c' evs H Ha Hp; cbn [page_loop] in Hp.
+    - injection Hp as <- <-. exists ns. rewrite app_nil_r. split; [assumption|]. split; [assumption|]. split; [repeat split|cbn; split; lia].
+    - destruct (cur_get clear filtered flt choose st c) as [c1 r] eqn:Eg.
+      destruct (cur_get_spec _ _ _ _ _ _ H Ha Eg) as [ns1 [H1 [Ha1 [Hh1 [_ Hr]]]]].
+      destruct r as [ev|].
+      + destruct Hr as [Hhead [Hfl Hsel]].
+        destruct (cur_next_spec _ _ _ _ H1 Hhead Hsel) as [H2 Hh2].
+        destruct (page_loop clear filtered flt choose n st (cur_next clear filtered choose st c1)) as [c2 evs'] eqn:Ep.
+        injection Hp as <- <-.
+        destruct (acc_step D st ns1 (o_src ev) ev Ha1 Hhead) as [_ Hdel].
+        destruct (IH _ _ _ _ _ H2 (Hdel Hfl) Ep) as [ns' [A [B [C [E F]]]]].
+        exists ns'. split; [assumption|]. split; [rewrite <- app_assoc in B; exact B|]. split; [|split; [cbn; lia|]].
+        * destruct Hh1 as [I1 [P1 L1]]. destruct Hh2 as [I2 [P2 L2]]. destruct C as [I3 [P3 L3]]. repeat split; congruence.
+        * cbn [length]. intros Hlt. apply F. lia.
+      + injection Hp as <- <-. exists ns1. rewrite app_nil_r. split; [assumption|]. split; [assumption|]. split; [assumption|].
+        split; [cbn; lia|]. intros _. assumption.
+  Qed.
+
+  (* ---------------------------------------------------------------- commit and the positions it reports *)
+  Inductive posl_ok : store -> posl -> list nat -> Prop :=
+  | PKnil : posl_ok [] [] []
+  | PKcons p st pos pl n ns : spos (p_jrnl p) pos -> flat (p_jrnl p) pos = n -> posl_ok st pl ns ->
+      posl_ok (p :: st) ((p_src p, pos) :: pl) (n :: ns).
+
+  Lemma collect_ok st ls ns : all3 st ls ns -> posl_ok st (collect_pos st ls) ns.
+  Proof.
+    induction 1 as [|p st l ls n ns Hs Hl _ IH]; cbn; constructor; try assumption.
+    - apply Hl.
+    - destruct Hl as [_ [_ [Hfl _]]]. exact Hfl.
+  Qed.
+
+  Lemma commit_spec st D c ns : cur_ok st c ns -> acc D st ns ->
+    exists ns' pl, cur_ok st (commit clear filtered flt choose st c) ns' /\ acc D st ns' /\
+      cu_id (commit clear filtered flt choose st c) = cu_id c /\
+      cu_pos (commit clear filtered flt choose st c) = PList pl /\ posl_ok st pl ns' /\ (at_end st ns -> ns' = ns).
+  Proof.
+    intros H Ha. unfold commit. destruct (cur_get clear filtered flt choose st c) as [c1 r] eqn:Eg.
+    destruct (cur_get_spec _ _ _ _ _ _ H Ha Eg) as [ns1 [H1 [Ha1 [[Hid _] [Hend _]]]]].
+    exists ns1, (collect_pos st (cu_leis c1)). split; [|split; [assumption|split; [assumption|split; [reflexivity|split; [|assumption]]]]].
+    - constructor; cbn; [apply (co_leis _ _ _ H1)|apply (co_bad _ _ _ H1)|apply (co_sel _ _ _ H1)|apply (co_fit _ _ _ H1)].
+    - apply collect_ok. apply (co_leis _ _ _ H1).
+  Qed.
+
+  (* ---------------------------------------------------------------- a new cursor built from a position *)
+
+  Definition start_ok (st : store) (pos : pos_t) (ns : list nat) : Prop :=
+    (pos = PHead /\ ns = map (fun _ => 0) st) \/ (exists pl, pos = PList pl /\ posl_ok st pl ns).
+
+  Definition Pq (pl : posl) (p : part) (n : nat) : Prop :=
+    sorted (p_jrnl p) /\ exists pos, assoc_pos (p_src p) pl = Some pos /\ spos (p_jrnl p) pos /\ flat (p_jrnl p) pos = n.
+
+  Lemma Pq_weaken s pos pl st ns : Forall2 (Pq pl) st ns -> ~ In s (map p_src st) -> Forall2 (Pq ((s, pos) :: pl)) st ns.
+  Proof.
+    induction 1 as [|p n st ns [Hs [q [Hq Hr]]] _ IH]; intros Hn; constructor.
+    - split; [assumption|]. exists q. split; [|assumption]. cbn.
+      destruct (bytes_eqb s (p_src p)) eqn:E; [|assumption]. apply bytes_eqb_eq in E. exfalso. apply Hn. left. congruence.
+    - apply IH. intros Hin. apply Hn. right. assumption.
+  Qed.
+
+  Lemma posl_ok_assoc st pl ns : wf_store st -> posl_ok st pl ns -> Forall2 (Pq pl) st ns.
+  Proof.
+    intros [Hnd Hso] H. induction H as [|p st pos pl n ns Hsp Hfl _ IH]; [constructor|].
+    cbn in Hnd. inversion Hnd as [|? ? Hnin Hnd']; subst. inversion Hso as [|? ? Hs1 Hso']; subst.
+    constructor.
+    - split; [assumption|]. exists pos. cbn. rewrite bytes_eqb_refl. repeat split; try assumption. apply Hsp. apply Hsp.
+    - apply Pq_weaken; [apply IH; assumption|assumption].
+  Qed.
+
+  Lemma set_poss_ok pl : forall st ns, Forall2 (Pq pl) st ns -> all3 st (set_poss st (map (fun _ => mkLei jit0 []) st) pl) ns.
+  Proof.
+    induction 1 as [|p n st ns [Hs [pos [Hq [Hsp Hfl]]]] _ IH]; cbn; [constructor|].
+    rewrite Hq. constructor; [assumption| |assumption]. rewrite <- Hfl. apply lei_new. assumption.
+  Qed.
+
+  Lemma set_all_head st : Forall (fun p => sorted (p_jrnl p)) st ->
+    all3 st (set_all st (map (fun _ => mkLei jit0 []) st) (0, 0)%N) (map (fun _ => 0) st).
+  Proof. induction 1 as [|p st Hs _ IH]; cbn; constructor; try assumption. apply lei_fresh. Qed.
+
+  Lemma new_cursor_ok st id pos ns : wf_store st -> start_ok st pos ns -> cur_ok st (new_cursor st id pos) ns.
+  Proof.
+    intros Hwf [[-> ->]|[pl [-> Hpl]]]; constructor; cbn; try reflexivity; try discriminate.
+    - apply set_all_head. apply Hwf.
+    - apply set_poss_ok. apply posl_ok_assoc; assumption.
+  Qed.
+
+  (* ---------------------------------------------------------------- appends between pages *)
+  Lemma all3_append st : forall i cid evs ls ns, all3 st ls ns -> all3 (append_at st i cid evs) ls ns.
+  Proof.
+    induction st as [|p st IH]; intros i cid evs ls ns H; inversion H as [|p' st' l ls0 n ns0 Hso Hok Hrest]; subst; cbn; [constructor|].
+    destruct i; constructor; cbn; try assumption; [apply jappend_sorted; assumption|apply lei_ok_append; assumption|apply IH; assumption].
+  Qed.
+
+  Lemma heads_append st : forall i0 i cid evs ns k ev, nth_error (heads_of i0 st ns) k = Some (Some ev) ->
+    nth_error (heads_of i0 (append_at st i cid evs) ns) k = Some (Some ev).
+  Proof.
+    induction st as [|p st IH]; intros i0 i cid evs [|n ns] k ev H; cbn [heads_of] in H; try (destruct k; discriminate).
+    destruct i; cbn [append_at heads_of p_jrnl].
+    - destruct k; cbn [nth_error] in *; [|assumption].
+      destruct (nth_error (recs (p_jrnl p)) n) as [e|] eqn:E; [|discriminate].
+      destruct (jappend_recs (p_jrnl p) cid evs) as [more ->]. rewrite nth_error_app1; [rewrite E; assumption|].
+      apply nth_error_Some. congruence.
+    - destruct k; cbn [nth_error] in *; [assumption|]. apply IH. assumption.
+  Qed.
+
+  Lemma append_at_len st : forall i cid evs, length (append_at st i cid evs) = length st.
+  Proof. induction st as [|p st IH]; intros [|i] cid evs; cbn; try reflexivity. f_equal. apply IH. Qed.
+
+  Lemma cur_ok_append st i cid evs c ns : cur_ok st c ns -> cur_ok (append_at st i cid evs) c ns.
+  Proof.
+    intros H. constructor.
+    - apply all3_append. apply (co_leis _ _ _ H).
+    - apply (co_bad _ _ _ H).
+    - intros ev Hev. destruct (co_sel _ _ _ H ev Hev) as [A B]. split; [assumption|]. apply heads_append. assumption.
+    - intros ev Hev. destruct (co_fit _ _ _ H ev Hev) as [A [B [C E]]]. repeat split; try assumption. apply heads_append. assumption.
+  Qed.
+
+  Lemma part_events_append st : forall i cid evs p, exists more, part_events (append_at st i cid evs) p = part_events st p ++ more.
+  Proof.
+    unfold part_events. induction st as [|q st IH]; intros i cid evs p.
+    - exists []. destruct i, p; reflexivity.
+    - destruct i; cbn [append_at].
+      + destruct p; cbn [nth_error]; [cbn; apply jappend_recs|exists []; rewrite app_nil_r; reflexivity].
+      + destruct p; cbn [nth_error]; [exists []; rewrite app_nil_r; reflexivity|apply IH].
+  Qed.
+
+  Definition bounded (st : store) (ns : list nat) : Prop := forall p, nth p ns 0 <= length (part_events st p).
+
+  Lemma acc_append D st ns i cid evs : acc D st ns -> bounded st ns -> acc D (append_at st i cid evs) ns.
+  Proof.
+    intros Ha Hb p. rewrite Ha. destruct (part_events_append st i cid evs p) as [more ->].
+    rewrite firstn_app. replace (nth p ns 0 - length (part_events st p)) with 0 by (specialize (Hb p); lia).
+    cbn. rewrite app_nil_r. reflexivity.
+  Qed.
+
+  Lemma bounded_append st ns i cid evs : bounded st ns -> bounded (append_at st i cid evs) ns.
+  Proof. intros Hb p. destruct (part_events_append st i cid evs p) as [more ->]. rewrite app_length. specialize (Hb p). lia. Qed.
+
+  Lemma posl_ok_bounded st pl ns : Forall (fun p => sorted (p_jrnl p)) st -> posl_ok st pl ns -> bounded st ns.
+  Proof.
+    intros Hso H. induction H as [|p st pos pl n ns Hsp Hfl _ IH]; intros q.
+    - destruct q; cbn; lia.
+    - inversion Hso as [|? ? Hs1 Hso']; subst. destruct q; cbn.
+      + apply flat_le. assumption.
+      + apply (IH Hso' q).
+  Qed.
+
+  Lemma zeros_bounded st : bounded st (map (fun _ => 0) st).
+  Proof.
+    intros p. assert (nth p (map (fun _ : part => 0) st) 0 = 0) as ->; [|lia].
+    revert p. induction st as [|q st IH]; intros [|p]; cbn; auto.
+  Qed.
+
+  Lemma start_ok_bounded st pos ns : wf_store st -> start_ok st pos ns -> bounded st ns.
+  Proof. intros [_ Hso] [[_ ->]|[pl [_ H]]]; [apply zeros_bounded|eapply posl_ok_bounded; eassumption]. Qed.
+
+  Lemma posl_ok_append st i cid evs pl ns : Forall (fun p => sorted (p_jrnl p)) st -> posl_ok st pl ns ->
+    posl_ok (append_at st i cid evs) pl ns.
+  Proof.
+    intros Hso H. revert i. induction H as [|p st pos pl n ns Hsp Hfl Hrest IH]; intros i; [destruct i; constructor|].
+    inversion Hso as [|? ? Hs1 Hso']; subst. destruct i; cbn [append_at].
+    - destruct (spos_append (p_jrnl p) cid evs pos Hs1 Hsp) as [A B].
+      apply (PKcons (mkPart (p_src p) (p_tags p) (jappend (p_jrnl p) cid evs))); [exact A|exact B|assumption].
+    - constructor; [assumption|reflexivity|apply IH; assumption].
+  Qed.
+
+  Lemma wf_store_append st i cid evs : wf_store st -> wf_store (append_at st i cid evs).
+  Proof.
+    intros [Hnd Hso]. split.
+    - assert (map p_src (append_at st i cid evs) = map p_src st) as ->; [|assumption].
+      clear. revert i. induction st as [|p st IH]; intros [|i]; cbn; try reflexivity. f_equal. apply IH.
+    - clear Hnd. revert i. induction Hso as [|p st Hs Hrest IH]; intros [|i]; cbn; constructor; try assumption.
+      + cbn. apply jappend_sorted. assumption.
+      + apply IH.
+  Qed.
+
+  Lemma start_ok_append st i cid evs pos ns : wf_store st -> start_ok st pos ns -> start_ok (append_at st i cid evs) pos ns.
+  Proof.
+    intros [_ Hso] [[-> ->]|[pl [-> H]]].
+    - left. split; [reflexivity|]. clear. revert i. induction st as [|p st IH]; intros [|i]; cbn; try reflexivity. f_equal. apply IH.
+    - right. exists pl. split; [reflexivity|]. apply posl_ok_append; assumption.
+  Qed.
+
+  (* ---------------------------------------------------------------- provider and Query *)
+  Definition cache_ok (st : store) (pv : provider) (id : N) (pos : pos_t) (ns : list nat) : Prop :=
+    forall c, cache_get id (pv_cache pv) = Some c -> cur_ok st c ns /\ cu_pos c = pos /\ cu_id c = id.
+
+  Lemma posl_eqb_refl l : posl_eqb l l = true.
+  Proof.
+    unfold posl_eqb. induction l as [|[k [a b]] l IH]; cbn [list_eqb]; [reflexivity|].
+    rewrite IH. unfold pair_eqb, pos_eqb. cbn [fst snd]. rewrite bytes_eqb_refl, !N.eqb_refl. reflexivity.
+  Qed.
+  Lemma pos_t_eqb_refl p : pos_t_eqb p p = true.
+  Proof. destruct p; cbn; try reflexivity. apply posl_eqb_refl. Qed.
+
+  Lemma cache_get_put id c l : cache_get id (cache_put id c l) = Some c.
+  Proof. unfold cache_put. cbn. rewrite N.eqb_refl. reflexivity. Qed.
+
+  Lemma all3_not_bad st ls ns : all3 st ls ns -> forallb (fun l => negb (j_bad (l_it l))) ls = true.
+  Proof.
+    induction 1 as [|p st' l ls n ns' _ Hl _ IH]; cbn; [reflexivity|].
+    destruct Hl as [[Hb _] _]. rewrite Hb. cbn. assumption.
+  Qed.
+  Lemma cursor_ok_true st c ns : cur_ok st c ns -> cursor_ok c = true.
+  Proof.
+    intros H. unfold cursor_ok. rewrite (co_bad _ _ _ H). cbn. eapply all3_not_bad. apply (co_leis _ _ _ H).
+  Qed.
+
+  Lemma query_spec st pv D ns id pos lim wait pv' rs : wf_store st -> acc D st ns -> start_ok st pos ns ->
+    ((0 <? id)%N = true -> cache_ok st pv id pos ns) ->
+    query clear filtered flt choose st pv (mkReq id pos lim wait) = (pv', rs) ->
+    exists ns', acc (D ++ rs_events rs) st ns' /\ start_ok st (rs_pos rs) ns' /\ rs_ok rs = true /\
+                ((0 <? rs_id rs)%N = true -> cache_ok st pv' (rs_id rs) (rs_pos rs) ns') /\
+                (length (rs_events rs) < N.to_nat (N.min lim query_max_limit) -> choose_valid choose -> at_end st ns').
+  Proof.
+    intros Hwf Ha Hst Hc Hq. unfold query in Hq. cbn [rq_id rq_pos rq_limit rq_wait] in Hq.
+    set (limit := N.min lim query_max_limit) in *. set (cache := (wait || negb (limit =? lim)%N)%bool) in *.
+    destruct (get_or_create st pv id pos cache) as [pv1 c] eqn:Eg.
+    assert (cur_ok st c ns) as Hcur.
+    { unfold get_or_create in Eg. destruct (0 <? id)%N eqn:Eid.
+      - destruct (cache_get id (pv_cache pv)) as [c0|] eqn:Ec.
+        + destruct (Hc eq_refl c0 Ec) as [A [B _]]. unfold apply_state in Eg. rewrite B, pos_t_eqb_refl in Eg.
+          injection Eg as <- <-. assumption.
+        + cbn in Eg. injection Eg as <- <-. apply new_cursor_ok; assumption.
+      - cbn in Eg. injection Eg as <- <-. apply new_cursor_ok; assumption. }
+    destruct (page_loop clear filtered flt choose (N.to_nat limit) st c) as [c1 evs] eqn:Ep.
+    destruct (page_loop_spec _ _ _ _ _ _ _ Hcur Ha Ep) as [ns1 [H1 [Ha1 [[Hid1 _] [_ Hshort]]]]].
+    unfold release in Hq.
+    destruct (commit_spec st (D ++ evs) c1 ns1 H1 Ha1) as [ns2 [pl [H2 [Ha2 [Hid2 [Hpos2 [Hpl Hend]]]]]]].
+    set (c2 := commit clear filtered flt choose st c1) in *.
+    assert (length evs < N.to_nat limit -> choose_valid choose -> at_end st ns2) as Hfin.
+    { intros Hlt Hv. pose proof (Hshort Hlt Hv) as He. rewrite (Hend He). assumption. }
+    exists ns2. destruct (cache_get (cu_id c2) (pv_cache pv1)) as [cc|] eqn:Ecc; injection Hq as <- <-; cbn [rs_events rs_pos rs_ok rs_id].
+    - split; [assumption|]. split; [right; exists pl; split; assumption|]. split; [eapply cursor_ok_true; eassumption|]. split; [|assumption].
+      intros _ c' Hc'. cbn [pv_cache] in Hc'. rewrite cache_get_put in Hc'. injection Hc' as <-. split; [assumption|split; reflexivity].
+    - split; [assumption|]. split; [right; exists pl; split; assumption|]. split; [eapply cursor_ok_true; eassumption|]. split; [|assumption].
+      cbn. discriminate.
+  Qed.
+
+  (* ---------------------------------------------------------------- the chained read *)
+  Lemma appends_keep st l D ns pos : wf_store st -> acc D st ns -> start_ok st pos ns ->
+    wf_store (apply_appends st l) /\ acc D (apply_appends st l) ns /\ start_ok (apply_appends st l) pos ns.
+  Proof.
+    unfold apply_appends. revert st. induction l as [|a l IH]; intros st Hwf Ha Hs; cbn [fold_left]; [auto|].
+    apply IH.
+    - apply wf_store_append. assumption.
+    - apply acc_append; [assumption|eapply start_ok_bounded; eassumption].
+    - apply start_ok_append; assumption.
+  Qed.
+
+  Lemma appends_keep_cur st l c ns : cur_ok st c ns -> cur_ok (apply_appends st l) c ns.
+  Proof.
+    unfold apply_appends. revert st. induction l as [|a l IH]; intros st H; cbn [fold_left]; [assumption|].
+    apply IH. apply cur_ok_append. assumption.
+  Qed.
+
+  Lemma last_nonempty {A} (l : list A) : forall b d d', last (b :: l) d = last (b :: l) d'.
+  Proof. induction l as [|c l IH]; intros b d d'; [reflexivity|]. change (last (c :: l) d = last (c :: l) d'). apply IH. Qed.
+  Lemma last_cons {A} (a : A) l d : last (a :: l) d = last l a.
+  Proof. destruct l as [|b l]; [reflexivity|]. change (last (b :: l) d = last (b :: l) a). apply last_nonempty. Qed.
+
+  Lemma run_spec : forall steps st pv cur prev D ns, wf_store st -> acc D st ns -> start_ok st (snd cur) ns ->
+    ((0 <? fst cur)%N = true -> cache_ok st pv (fst cur) (snd cur) ns) -> no_retry steps ->
+    let rs := run clear filtered flt choose st pv cur prev steps in
+    Forall (fun r => rs_ok r = true) rs /\
+    exists nsf, acc (D ++ concat (map rs_events rs)) (final_store st steps) nsf /\
+                start_ok (final_store st steps) (last (map rs_pos rs) (snd cur)) nsf /\
+                (last_page_short steps rs -> choose_valid choose -> at_end (final_store st steps) nsf).
+  Proof.
+    induction steps as [|s tl IH]; intros st pv cur prev D ns Hwf Ha Hs Hc Hnr; cbn zeta.
+    - cbn. split; [constructor|]. exists ns. rewrite app_nil_r. split; [assumption|]. split; [assumption|]. intros [].
+    - inversion Hnr as [|? ? Hk Hnr']; subst. cbn [run final_store].
+      destruct (appends_keep st (s_apps s) D ns (snd cur) Hwf Ha Hs) as [Hwf' [Ha' Hs']].
+      set (st' := apply_appends st (s_apps s)) in *.
+      set (pv1 := match s_kind s with REvict => evict_all pv | _ => pv end).
+      set (rq := match s_kind s with RSame | REvict => cur | RZero | RPosOnly => (0%N, snd cur) | RRetry => prev end).
+      assert (snd rq = snd cur) as Hrqp by (unfold rq; destruct (s_kind s); try reflexivity; congruence).
+      assert ((0 <? fst rq)%N = true -> cache_ok st' pv1 (fst rq) (snd rq) ns) as Hc'.
+      { unfold rq, pv1. destruct (s_kind s); cbn [fst snd]; try discriminate; try congruence;
+          try (intros _ c Hcc; cbn in Hcc; discriminate).
+        intros Hid c Hcc. destruct (Hc Hid c Hcc) as [A [B C]]. split; [apply appends_keep_cur; assumption|split; assumption]. }
+      destruct (query clear filtered flt choose st' pv1 (mkReq (fst rq) (snd rq) (s_limit s) (s_wait s))) as [pv2 r] eqn:Eq.
+      rewrite <- Hrqp in Hs'.
+      destruct (query_spec _ _ _ _ _ _ _ _ _ _ Hwf' Ha' Hs' Hc' Eq) as [ns' [Ha2 [Hs2 [Hok [Hc2 Hsh]]]]].
+      specialize (IH st' pv2 (rs_id r, rs_pos r) rq (D ++ rs_events r) ns' Hwf' Ha2 Hs2 Hc2 Hnr'). cbn zeta in IH.
+      destruct IH as [Hall [nsf [Haf [Hsf Hef]]]].
+      split; [constructor; assumption|].
+      destruct tl as [|s2 tl2].
+      + (* the last step: the model's run of [] is [] *)
+        cbn [run final_store map concat last] in *. exists ns'. rewrite app_nil_r.
+        split; [assumption|]. split; [assumption|]. cbn [last_page_short]. assumption.
+      + exists nsf. cbn [map concat]. rewrite last_cons. rewrite app_assoc. split; [assumption|]. split; [assumption|].
+        cbn [last_page_short]. assumption.
+  Qed.
+End Cur.
+
+(* ================================================================== the theorems of props/C03.v *)
+Lemma wf_final st steps : wf_store st -> wf_store (final_store st steps).
+Proof.
+  revert st. induction steps as [|s tl IH]; intros st H; cbn [final_store]; [assumption|]. apply IH.
+  clear IH. unfold apply_appends. revert st H. induction (s_apps s) as [|a l IHl]; intros st H; cbn [fold_left]; [assumption|].
+  apply IHl. apply wf_store_append. assumption.
+Qed.
+
+Lemma pos_of_ok st pl ns p : wf_store st -> posl_ok st pl ns -> nth p ns 0 = pos_of st p (PList pl).
+Proof.
+  intros Hwf H. pose proof (posl_ok_assoc st pl ns Hwf H) as F. unfold pos_of.
+  clear H Hwf. revert p. induction F as [|pt n st ns [_ [pos [Ha [_ Hf]]]] _ IH]; intros p.
+  - destruct p; reflexivity.
+  - destruct p; cbn [nth nth_error]; [rewrite Ha; symmetry; assumption|apply IH].
+Qed.
+
+Lemma zeros_nth (st : store) p : nth p (map (fun _ : part => 0) st) 0 = 0.
+Proof. revert p. induction st as [|q st IH]; intros [|p]; cbn; auto. Qed.
+
+Theorem paged_read (clear filtered : bool) (flt : oev -> bool) (choose : nat -> list (option oev) -> nat) st steps :
+  wf_store st -> no_retry steps ->
+  let rs := run_from clear filtered flt choose st PHead steps in
+  let stf := final_store st steps in
+  Forall (fun r => rs_ok r = true) rs /\
+  forall p, events_of p (concat (map rs_events rs)) =
+            filter (eff_flt filtered flt) (map (obs p) (firstn (pos_of stf p (last (map rs_pos rs) PHead)) (part_events stf p))).
+Proof.
+  intros Hwf Hnr. cbn zeta. unfold run_from.
+  assert (acc filtered flt [] st (map (fun _ => 0) st)) as Ha0.
+  { intros p. rewrite zeros_nth. reflexivity. }
+  assert (start_ok st PHead (map (fun _ => 0) st)) as Hs0 by (left; split; reflexivity).
+  assert ((0 <? fst (0%N, PHead))%N = true -> cache_ok clear filtered flt st prov0 (fst (0%N, PHead)) (snd (0%N, PHead)) (map (fun _ => 0) st)) as Hc0
+    by (cbn; discriminate).
+  destruct (run_spec clear filtered flt choose steps st prov0 (0%N, PHead) (0%N, PHead) [] _ Hwf Ha0 Hs0 Hc0 Hnr) as [Hall [nsf [Haf [Hsf _]]]].
+  cbn [snd app] in *. split; [assumption|]. intros p. rewrite (Haf p). unfold eflt. f_equal. f_equal. f_equal.
+  destruct Hsf as [[-> ->]|[pl [-> Hpl]]].
+  - rewrite zeros_nth. unfold pos_of. destruct (nth_error (final_store st steps) p); reflexivity.
+  - apply pos_of_ok; [apply wf_final; assumption|assumption].
+Qed.
+
+Lemma final_no_appends st steps : no_appends steps -> final_store st steps = st.
+Proof. revert st. induction 1 as [|s tl Hs _ IH]; intros; cbn [final_store]; [reflexivity|]. rewrite Hs. cbn. apply IH. Qed.
+
+(* appends only ever add events behind the stored ones *)
+Lemma appends_extend st l p : exists more, part_events (apply_appends st l) p = part_events st p ++ more.
+Proof.
+  unfold apply_appends. revert st. induction l as [|a l IH]; intros st; cbn [fold_left].
+  - exists []. rewrite app_nil_r. reflexivity.
+  - destruct (IH (append_at st (a_part a) (a_cid a) (a_evs a))) as [m1 H1].
+    destruct (part_events_append st (a_part a) (a_cid a) (a_evs a) p) as [m2 H2].
+    exists (m2 ++ m1). rewrite H1, H2, app_assoc. reflexivity.
+Qed.
+
+(* ---- completeness: a read whose last page came back short has consumed every partition to its end *)
+Lemma heads_at st : forall i ns k pt n, nth_error st k = Some pt -> nth_error ns k = Some n ->
+  nth_error (heads_of i st ns) k = Some (option_map (obs (i + k)) (nth_error (recs (p_jrnl pt)) n)).
+Proof.
+  induction st as [|p st IH]; intros i [|m ns] k pt n Hs Hn; destruct k; cbn in *; try discriminate.
+  - injection Hs as <-. injection Hn as <-. rewrite Nat.add_0_r. reflexivity.
+  - rewrite (IH (S i) ns k pt n Hs Hn). replace (S i + k) with (i + S k) by lia. reflexivity.
+Qed.
+
+Lemma posl_ok_len st pl ns : posl_ok st pl ns -> length ns = length st.
+Proof. induction 1; cbn; congruence. Qed.
+
+Lemma start_ok_len st pos ns : start_ok st pos ns -> length ns = length st.
+Proof. intros [[_ ->]|[pl [_ H]]]; [apply map_length|eapply posl_ok_len; eassumption]. Qed.
+
+Lemma at_end_all st ns p : at_end st ns -> length ns = length st ->
+  firstn (nth p ns 0) (part_events st p) = part_events st p.
+Proof.
+  intros He Hl. unfold part_events. destruct (nth_error st p) as [pt|] eqn:Es; [|destruct (nth p ns 0); reflexivity].
+  assert (p < length ns) as Hp by (rewrite Hl; apply nth_error_Some; congruence).
+  destruct (nth_error ns p) as [n|] eqn:En; [|apply nth_error_None in En; lia].
+  rewrite (nth_error_nth _ _ 0 En). apply firstn_all2.
+  pose proof (heads_at st 0 ns p pt n Es En) as Hh.
+  destruct (nth_error (recs (p_jrnl pt)) n) as [e|] eqn:Er; [exfalso; exact (He _ _ Hh)|].
+  apply nth_error_None. assumption.
+Qed.
+
+Theorem paged_read_complete (clear filtered : bool) (flt : oev -> bool) (choose : nat -> list (option oev) -> nat) st steps :
+  wf_store st -> no_retry steps -> choose_valid choose ->
+  last_page_short steps (run_from clear filtered flt choose st PHead steps) ->
+  forall p, events_of p (concat (map rs_events (run_from clear filtered flt choose st PHead steps))) =
+            filter (eff_flt filtered flt) (map (obs p) (part_events (final_store st steps) p)).
+Proof.
+  intros Hwf Hnr Hv Hsh p. unfold run_from in *.
+  assert (acc filtered flt [] st (map (fun _ => 0) st)) as Ha0.
+  { intros q. rewrite zeros_nth. reflexivity. }
+  assert (start_ok st PHead (map (fun _ => 0) st)) as Hs0 by (left; split; reflexivity).
+  assert ((0 <? fst (0%N, PHead))%N = true -> cache_ok clear filtered flt st prov0 (fst (0%N, PHead)) (snd (0%N, PHead)) (map (fun _ => 0) st)) as Hc0
+    by (cbn; discriminate).
+  destruct (run_spec clear filtered flt choose steps st prov0 (0%N, PHead) (0%N, PHead) [] _ Hwf Ha0 Hs0 Hc0 Hnr) as [_ [nsf [Haf [Hsf Hend]]]].
+  cbn [snd app] in *. rewrite (Haf p). unfold eflt.
+  rewrite (at_end_all _ _ p (Hend Hsh Hv) (start_ok_len _ _ _ Hsf)). reflexivity.
+Qed.
+
+Theorem delivered_are_stored (clear filtered : bool) (flt : oev -> bool) (choose : nat -> list (option oev) -> nat) st steps :
+  wf_store st -> no_retry steps ->
+  forall ev, In ev (concat (map rs_events (run_from clear filtered flt choose st PHead steps))) ->
+  In ev (map (obs (o_src ev)) (part_events (final_store st steps) (o_src ev))).
+Proof.
+  intros Hwf Hnr ev Hin. destruct (paged_read clear filtered flt choose st steps Hwf Hnr) as [_ H]. cbn zeta in H.
+  assert (In ev (events_of (o_src ev) (concat (map rs_events (run_from clear filtered flt choose st PHead steps))))) as Hin2.
+  { unfold events_of. apply filter_In. split; [assumption|apply Nat.eqb_refl]. }
+  rewrite H in Hin2. apply filter_In in Hin2. destruct Hin2 as [Hin2 _].
+  apply in_map_iff in Hin2. destruct Hin2 as [e [He Hin2]]. apply in_map_iff. exists e. split; [assumption|].
+  set (n := pos_of _ _ _) in Hin2. rewrite <- (firstn_skipn n). apply in_or_app. left. assumption.
+Qed.
+
+Lemma final_len st steps : length (final_store st steps) = length st.
+Proof.
+  revert st. induction steps as [|s tl IH]; intros st; cbn [final_store]; [reflexivity|]. rewrite IH.
+  unfold apply_appends. revert st. induction (s_apps s) as [|a l IHl]; intros st; cbn [fold_left]; [reflexivity|].
+  rewrite IHl. apply append_at_len.
+Qed.
+
+Lemma run_srcs_lt (clear filtered : bool) (flt : oev -> bool) (choose : nat -> list (option oev) -> nat) st steps :
+  wf_store st -> no_retry steps -> final_store st steps = st ->
+  forall ev, In ev (concat (map rs_events (run_from clear filtered flt choose st PHead steps))) -> o_src ev < length st.
+Proof.
+  intros Hwf Hnr Hf ev Hin. pose proof (delivered_are_stored clear filtered flt choose st steps Hwf Hnr ev Hin) as H.
+  rewrite Hf in H. unfold part_events in H. destruct (nth_error st (o_src ev)) eqn:E; [|destruct H].
+  apply nth_error_Some. congruence.
+Qed.
+
+(* two lists with the same restriction to every source are permutations of one another *)
+Lemma ins_bucket (x : oev) (f : nat -> list oev) k : forall L, NoDup L -> In k L ->
+  Permutation (x :: concat (map f L)) (concat (map (fun p => if Nat.eqb k p then x :: f p else f p) L)).
+Proof.
+  induction L as [|a L IH]; intros Hnd Hin; [destruct Hin|].
+  inversion Hnd as [|? ? Hna Hnd']; subst. cbn [map concat]. destruct (Nat.eqb_spec k a) as [->|Hne].
+  - assert (map (fun p => if Nat.eqb a p then x :: f p else f p) L = map f L) as ->.
+    { apply map_ext_in. intros p Hp. destruct (Nat.eqb_spec a p); [subst; contradiction|reflexivity]. }
+    reflexivity.
+  - destruct Hin as [->|Hin]; [congruence|]. specialize (IH Hnd' Hin).
+    etransitivity; [apply Permutation_middle|]. apply Permutation_app_head. assumption.
+Qed.
+
+Lemma bucket_perm n : forall D, (forall ev, In ev D -> o_src ev < n) ->
+  Permutation D (concat (map (fun p => events_of p D) (seq 0 n))).
+Proof.
+  induction D as [|x D IH]; intros H.
+  - clear H. induction (seq 0 n) as [|a L IHL]; cbn; [constructor|assumption].
+  - assert (Permutation D (concat (map (fun p => events_of p D) (seq 0 n)))) as IH' by (apply IH; intros ev Hev; apply H; right; assumption).
+    etransitivity; [apply perm_skip; exact IH'|].
+    etransitivity; [apply (ins_bucket x (fun p => events_of p D) (o_src x) (seq 0 n) (seq_NoDup n 0))|].
+    + apply in_seq. specialize (H x (or_introl eq_refl)). lia.
+    + apply Permutation_refl'. reflexivity.
+Qed.
+
+Lemma same_parts_perm n D1 D2 : (forall ev, In ev D1 -> o_src ev < n) -> (forall ev, In ev D2 -> o_src ev < n) ->
+  (forall p, events_of p D1 = events_of p D2) -> Permutation D1 D2.
+Proof.
+  intros H1 H2 He. etransitivity; [apply (bucket_perm n D1 H1)|]. etransitivity; [|symmetry; apply (bucket_perm n D2 H2)].
+  apply Permutation_refl'. f_equal. apply map_ext. assumption.
+Qed.
+
+(* the merge used by the correspondence check is valid *)
+Lemma min_head_valid : forall hs pre best,
+  (forall k t, best = Some (k, t) -> exists ev, nth_error (pre ++ hs) k = Some (Some ev)) ->
+  (best <> None \/ exists j ev, nth_error hs j = Some (Some ev)) ->
+  exists ev, nth_error (pre ++ hs) (min_head (length pre) hs best) = Some (Some ev).
+Proof.
+  induction hs as [|h hs IH]; intros pre best Hb Hex; cbn [min_head].
+  - destruct best as [[k t]|]; [apply (Hb k t eq_refl)|]. destruct Hex as [Hn|[j [ev Hj]]]; [congruence|destruct j; discriminate].
+  - replace (pre ++ h :: hs) with ((pre ++ [h]) ++ hs) by (rewrite <- app_assoc; reflexivity).
+    replace (S (length pre)) with (length (pre ++ [h])) by (rewrite app_length; cbn; lia).
+    apply IH.
+    + intros k t Hk. rewrite <- app_assoc. cbn [app].
+      destruct h as [ev|]; [|apply (Hb k t); assumption].
+      destruct best as [[k0 t0]|].
+      * destruct (o_ts ev <? t0)%Z; [|apply (Hb k t); assumption]. injection Hk as <- _.
+        exists ev. rewrite nth_error_app2 by lia. rewrite Nat.sub_diag. reflexivity.
+      * injection Hk as <- _. exists ev. rewrite nth_error_app2 by lia. rewrite Nat.sub_diag. reflexivity.
+    + destruct h as [ev|].
+      * left. destruct best as [[k0 t0]|]; [destruct (o_ts ev <? t0)%Z|]; discriminate.
+      * destruct Hex as [Hn|[j [ev Hj]]]; [left; assumption|]. destruct j; [discriminate|]. right. exists j, ev. assumption.
+Qed.
+
+Lemma choose_min_valid : choose_valid choose_min.
+Proof.
+  intros t hs k ev Hk. unfold choose_min.
+  destruct (min_head_valid hs [] None) as [ev' H]; [discriminate|right; eauto|]. exists ev'. exact H.
 Qed.
